@@ -382,6 +382,13 @@ def namespace_scenarios():
             out.append(('the same computation has different storage locations in different members', f'pipeline mounted as a / b / ta / not mounted: {paths}'))
         elif not (objs[0] is objs[1] is objs[2]):
             out.append(('tasks that are the same computation are not one shared object across the chains', 'pipeline (using `leafx as data`) mounted as a, b and ta'))
+        # ... and a member that IS the pipeline (not mounted at all), built before or after the mounting member
+        for order in (('ma', 'pipe'), ('pipe', 'ma')):
+            mc2 = MultiChain([w.make_config('v', base_dir=root + '/data', root=r) for r in order])
+            pu, pm = mc2['pipe']['u'], mc2['ma']['a::u']
+            p2 = [os.path.relpath(str(pu.data_path), root), os.path.relpath(str(pm.data_path), root), paths[-1]]
+            if len(set(p2)) != 1 or pu is not pm:
+                out.append(('the same computation has different storage locations in different members', f'members {order} (pipeline itself / mounted as a / standalone): {p2}, one object: {pu is pm}'))
     except Exception as e:  # noqa
         out.append(('MultiChain over a pipeline with an inner namespace cannot be built / evaluated', f'{type(e).__name__}: {e}'))
     finally:
@@ -394,8 +401,9 @@ def namespace_scenarios():
                                               'Rep': {'name': 'rep', 'params': [P('pr', default=1)], 'inputs': [bc('Agg')], 'data': 'json'}},
              'contexts': {'mb': {'kind': 'dict', 'data': {}, 'for_namespaces': {'b': {'pr': 2}}}},
              'configs': {'leaf': {'medium': 'json', 'file': 'leaf.json', 'tasks': ['Px', 'Py', 'Agg', 'Rep'], 'values': {}},
+                         'leaf_r': {'medium': 'json', 'file': 'leaf_r.json', 'tasks': ['Agg', 'Py', 'Px', 'Rep'], 'values': {}},   # the same tasks declared in another order
                          'ma': {'medium': 'json', 'file': 'ma.json', 'tasks': [], 'values': {}, 'uses': [{'config': 'leaf', 'as': 'a'}]},
-                         'mb': {'medium': 'json', 'file': 'mb.json', 'tasks': [], 'values': {}, 'uses': [{'config': 'leaf', 'as': 'b'}]}},
+                         'mb': {'medium': 'json', 'file': 'mb.json', 'tasks': [], 'values': {}, 'uses': [{'config': 'leaf_r', 'as': 'b'}]}},
              'root': 'ma', 'variants': {'v': []}}
     for order in (('ma', 'mb'), ('mb', 'ma')):
         root = scratch.fresh('c13n')
@@ -412,6 +420,9 @@ def namespace_scenarios():
                 if ins != ['part_x', 'part_y'] or req != ['agg', 'part_x', 'part_y'] or got_inputs != ['part_x', 'part_y']:
                     out.append(('pattern inputs of a shared task are not wired in every member', f'members {order}, member {member}: inputs {ins}, required tasks of rep {req}, value computed from {got_inputs}'))
                     break
+            if mc['ma']['a::agg'] is not mc['mb']['b::agg'] or mc['ma']['a::agg'].data_path != mc['mb']['b::agg'].data_path:
+                out.append(('tasks that are the same computation are not one shared object across the chains',
+                            f'members {order}: task with pattern inputs, parts declared in another order by the second member: {mc["ma"]["a::agg"].data_path.name} vs {mc["mb"]["b::agg"].data_path.name}'))
             mc.force('part_x')
             fb = forced_names(mc['mb'])
             if fb != ['b::agg', 'b::part_x', 'b::rep']:
